@@ -1,0 +1,41 @@
+// Copyright (c) HashiCorp, Inc.
+// SPDX-License-Identifier: MPL-2.0
+
+//go:build verif
+
+// Package verifhook provides observation points for the external
+// verification harness. With the "verif" build tag the points call an
+// installed handler (which may block, acting as a scheduler gate); without
+// the tag they are empty functions and compile to nothing.
+package verifhook
+
+import "sync/atomic"
+
+// Handler receives a hook point: its name, the object it concerns and two
+// scalar arguments.
+type Handler func(ev string, obj interface{}, a, b int64)
+
+var handler atomic.Value // of Handler
+
+// Set installs (or, with nil, removes) the handler.
+func Set(h Handler) {
+	handler.Store(h)
+}
+
+// Enabled reports whether hooks are compiled in.
+const Enabled = true
+
+// Point reports a hook point to the installed handler, if any.
+func Point(ev string, obj interface{}, a, b int64) {
+	if h, _ := handler.Load().(Handler); h != nil {
+		h(ev, obj, a, b)
+	}
+}
+
+// B converts a bool to the scalar form used by Point.
+func B(v bool) int64 {
+	if v {
+		return 1
+	}
+	return 0
+}
